@@ -11,9 +11,20 @@ FMT_SIZE = {"b": 1, "B": 1, "h": 2, "H": 2, "i": 4, "I": 4, "q": 8, "Q": 8, "x":
 INT_FMTS = "bBhHiIqQ"
 
 
+ORDERS = ("<", ">", "!")
+# every integer format with an explicit byte order: the same values, other bytes in memory (and another path
+# through the library wherever it looks at len(fmt) or fmt[0])
+ORDERED_FMTS = [o + c for o in ORDERS for c in INT_FMTS]
+
+
+def fmt_size(fmt):
+    """bytes of one element of a format (a byte-order prefix does not change it)"""
+    return FMT_SIZE[fmt[-1]]
+
+
 def fmt_range(fmt):
-    n = FMT_SIZE[fmt] * 8
-    if fmt.islower():
+    n = fmt_size(fmt) * 8
+    if fmt[-1].islower():
         return -(1 << (n - 1)), (1 << (n - 1)) - 1
     return 0, (1 << n) - 1
 
@@ -39,21 +50,28 @@ def rand_struct(rng, maxbytes=24, fmts=INT_FMTS, maxmembers=5):
     """[[name, fmt], ...] such that every member is naturally aligned ("structures must be packed")"""
     out, off = [], 0
     for i in range(rng.randint(1, maxmembers)):
-        ok = [f for f in fmts if off % FMT_SIZE[f] == 0 and off + FMT_SIZE[f] <= maxbytes]
+        ok = [f for f in fmts if off % fmt_size(f) == 0 and off + fmt_size(f) <= maxbytes]
         if not ok:
             break
         f = rng.choice(ok)
         out.append([f"m{i}", f])
-        off += FMT_SIZE[f]
+        off += fmt_size(f)
     return out
 
 
 def struct_size(members):
-    return sum(FMT_SIZE[f] for _, f in members)
+    return sum(fmt_size(f) for _, f in members)
 
 
 def rand_decl(rng, arrays=True, percpu=True, hashvars=True, dicts=True, hash_fmts=INT_FMTS + "x",
-              array_fmts=("B", "h", "I", "q", "x", "3H", "b", "H", "i", "Q")):
+              array_fmts=("B", "h", "I", "q", "x", "3H", "b", "H", "i", "Q"), member_fmts=INT_FMTS, ordered=0.0):
+    """ordered: probability with which a declaration draws its formats from the pools widened by every
+    byte-order-prefixed integer format (hash variables, array / per-CPU variables, Structure members)"""
+    hash_fmts, array_fmts, member_fmts = list(hash_fmts), list(array_fmts), list(member_fmts)
+    if rng.random() < ordered:
+        hash_fmts = hash_fmts + ORDERED_FMTS + ORDERED_FMTS
+        array_fmts = array_fmts + ORDERED_FMTS
+        member_fmts = member_fmts + ORDERED_FMTS
     d = dict(arrays=[], hash=None, dicts=[])
     if arrays and rng.random() < 0.6:
         d["arrays"].append(dict(name="am", percpu=False,
@@ -76,11 +94,11 @@ def rand_decl(rng, arrays=True, percpu=True, hashvars=True, dicts=True, hash_fmt
         d["hash"] = dict(name="hm", vars=vs)
     if dicts:
         for i in range(rng.choice([0, 1, 1, 2])):
-            d["dicts"].append(dict(name=f"d{i}", key=rand_struct(rng, maxbytes=16, maxmembers=3),
-                                   value=rand_struct(rng, maxbytes=24, maxmembers=4),
+            d["dicts"].append(dict(name=f"d{i}", key=rand_struct(rng, maxbytes=16, maxmembers=3, fmts=member_fmts),
+                                   value=rand_struct(rng, maxbytes=24, maxmembers=4, fmts=member_fmts),
                                    size=rng.randint(1, 4), lru=rng.random() < 0.15))
     if not (d["arrays"] or d["hash"] or d["dicts"]):
-        return rand_decl(rng, arrays, percpu, hashvars, dicts, hash_fmts, array_fmts)
+        return rand_decl(rng, arrays, percpu, hashvars, dicts, hash_fmts, array_fmts, member_fmts, 0.0)
     return d
 
 
